@@ -127,6 +127,8 @@ type Fixture struct {
 	KStore   common.Address
 	KRevert  common.Address
 	KClear   common.Address // clears a slot that is non-zero in genesis: the first call earns an SSTORE refund
+	KDie     common.Address // SELFDESTRUCT(CALLER)
+	KSize    common.Address // SSTORE(0, EXTCODESIZE(KDie))
 	Accounts []*Account
 	Universe []common.Address // every address that may ever hold a balance (for reporting only)
 }
@@ -184,6 +186,8 @@ func Fix() *Fixture {
 		f.KStore = common.HexToAddress("0xc0de000000000000000000000000000000000001")
 		f.KRevert = common.HexToAddress("0xc0de000000000000000000000000000000000002")
 		f.KClear = common.HexToAddress("0xc0de000000000000000000000000000000000003")
+		f.KDie = common.HexToAddress("0xc0de000000000000000000000000000000000004")
+		f.KSize = common.HexToAddress("0xc0de000000000000000000000000000000000005")
 		f.Accounts = []*Account{f.D1, f.D2, f.P}
 		for _, v := range f.Vals {
 			f.Accounts = append(f.Accounts, v.Operator)
@@ -245,6 +249,9 @@ func (f *Fixture) Genesis() *core.Genesis {
 	// KClear: SSTORE(0, 0) ; STOP   with slot 0 == 1 in genesis
 	g.Alloc[f.KClear] = core.GenesisAccount{Balance: big.NewInt(0), Code: []byte{0x60, 0x00, 0x60, 0x00, 0x55, 0x00},
 		Storage: map[common.Hash]common.Hash{{}: common.BigToHash(big.NewInt(1))}}
+	// KDie: CALLER ; SELFDESTRUCT      KSize: PUSH20 KDie ; EXTCODESIZE ; PUSH1 0 ; SSTORE ; STOP
+	g.Alloc[f.KDie] = core.GenesisAccount{Balance: big.NewInt(0), Code: []byte{0x33, 0xff}}
+	g.Alloc[f.KSize] = core.GenesisAccount{Balance: big.NewInt(0), Code: append(append([]byte{0x73}, f.KDie[:]...), 0x3b, 0x60, 0x00, 0x55, 0x00)}
 	for _, v := range f.Vals {
 		extra := (v.Name == "s2" && curCfg.ExtraChamber >= 1) || (v.Name == "s3" && curCfg.ExtraChamber >= 2)
 		if !v.Genesis && !extra {
